@@ -26,12 +26,13 @@ META = {
         "C10.1 / C10.7 / C10.7b): a thread is started only below max_threads, every worker exit decrements the thread counter "
         "exactly once - otherwise a max_threads=1 pool can run two workers and tasks no longer start in submission order; "
         "C09.9 (imported from C10.5) every decision to start or retire a worker is taken under the pool lock on inputs read "
-        "under that lock whose writers hold it - a worker retiring on a stale snapshot leaves an accepted task unexecuted."),
+        "under that lock whose writers hold it - a worker retiring on a stale snapshot leaves an accepted task unexecuted. C09.10 (shared with C10.8) the worker's handler around a failing task never evaluates the user-supplied objects, so the worker survives the failure and goes on to the tasks queued behind it."),
     "does_not_decide": "exactly-once and eventual execution over all interleavings, submission-order start beyond "
                        "FIFO-ness, idle-timeout behaviour (schedule-quantified).",
     "rules": {"C09.1": "provenance + post-dominance + who-may-put", "C09.2": "per-iteration event-count exploration of the worker CFG (exception edges included)",
               "C09.3": "provenance + event count + field-write scan", "C09.4": "constructor type", "C09.5": "ordering / dominance / lockset",
-              "C09.6": "dominance", "C09.7": "lockset of every field access (E5)", "C09.8": "imported C10.1, C10.7, C10.7b", "C09.9": "imported C10.5 (E5 snapshot rule)"},
+              "C09.6": "dominance", "C09.7": "lockset of every field access (E5)", "C09.8": "imported C10.1, C10.7, C10.7b", "C09.9": "imported C10.5 (E5 snapshot rule)",
+              "C09.10": "syntax-directed use classification of the containment handler (common.check_inert_handlers)"},
     "assumptions": ["queue.Queue is FIFO and thread-safe; threading.Event/RLock behave as documented"],
 }
 
@@ -236,6 +237,13 @@ def check(ck):
     gw = cfg_of(fw)
     rz = [n for n in gw.live_nodes() if n.kind == "raise"]
     okk = len(rz) == 1 and dump(rz[0].ast.exc) == "self." + EF["exception"]
+    for rz_ in rz[:1]:
+        gds_ = [(t_, p_) for (t_, p_) in q.guards_of(gw, rz_) if EF["exception"] in dump(t_)]
+        ident = bool(gds_) and all(isinstance(t_, ast.Compare) and len(t_.ops) == 1 and isinstance(t_.ops[0], (ast.Is, ast.IsNot)) and
+                                   isinstance(t_.comparators[0], ast.Constant) and t_.comparators[0].value is None for (t_, _p) in gds_)
+        ck.require(ident, "C09.3", "%s: failure decided by `is None`" % q.fn(fw), "identity test of the stored exception with None",
+                   "wait() decides between raising and returning by the truthiness of the stored exception (`%s`): an exception object that is "
+                   "falsy (defines __bool__ / __len__) is not re-raised, the failed task reports a result" % [dump(t_) for (t_, _p) in gds_], q.loc(fw, rz_))
     ck.require(okk, "C09.3", "%s: raises the stored exception object" % q.fn(fw), "`raise self.%s`" % EF["exception"],
                "EventData.wait does not raise the stored exception object itself", q.loc(fw, fw.node))
     for cname, meths in (("EventData", ("wait", "data", "exception", "is_set")), ("FutureResult", ("result", "done"))):
@@ -360,3 +368,7 @@ def check(ck):
     common.import_rules(ck, c10, {"C10.7": "C09.8", "C10.7b": "C09.8", "C10.1": "C09.8", "C10.5": "C09.9"})
     ck.floor("C09.8", 8)
     ck.floor("C09.9", 8)
+
+    # ---- C09.10 the worker survives a failing task (shared with C10.8) -----------------------------------------------------
+    common.check_inert_handlers(ck, "C09.10", scopes=("worker",))
+    ck.floor("C09.10", 2)
